@@ -38,7 +38,8 @@ TRUSTED = [
     "the Lean spec reads argument kinds (mkFilter/mkThreshold) and levelDecision by hand; the model interprets the "
     "regenerated if/elif chains of add() and is proved equal; the Python oracle restates validation independently",
     "an overlapped call is produced in ONE thread: the core's class is swapped for a subclass whose attribute read runs "
-    "the complete enable()/disable() (value fetched first) - the same interleaving as parking the reader thread there",
+    "the complete enable()/disable() (value fetched first) - the same interleaving as parking the reader thread there; "
+    "the stream `threads` produces the same interleavings with two real threads and compares",
     "the sink labels use the count of attempted add() calls (re-read from core.handlers_count only after a configure() "
     "that raised)",
 ]
@@ -302,7 +303,13 @@ SINK_KINDS = ("callable", "stream", "std", "obj", "both")
 DERIVED = 6
 
 
+class HarnessTimeout(RuntimeError):
+    pass
+
+
 class Impl:
+    threads = False      # True: an overlapped call is produced by two REAL threads (the reader is parked)
+
     def __init__(self):
         from loguru._logger import Core, Logger
         self.root = Logger(core=Core(), exception=None, depth=0, record=False, lazy=False, colors=False, raw=False,
@@ -356,8 +363,54 @@ class Impl:
     def do(self, op):
         try:
             return self._do(op)
+        except HarnessTimeout:
+            raise
         except Exception as e:  # noqa
             return "err " + core.err_kind(e)
+
+    def _overlap_with_threads(self, op, core_, base, change, fired):
+        """the same interleaving with two real threads: the reader thread runs the log call and PARKS at the yield
+        point; this thread then runs the complete enable()/disable() and lets the reader go on"""
+        import threading
+        parked, resume, result = threading.Event(), threading.Event(), []
+
+        def park():
+            lk = getattr(core_, "lock", None)
+            if lk is not None and hasattr(lk, "acquire"):
+                if not lk.acquire(blocking=False):
+                    return                      # the reader holds the core lock here: nobody can overlap
+                lk.release()
+            parked.set()
+            if not resume.wait(10):
+                raise HarnessTimeout("reader was not resumed")
+
+        def reader():
+            try:
+                result.append(self._do(["log", op[1], op[2], op[3]]))
+            except HarnessTimeout:
+                result.append("timeout")
+            except Exception as e:  # noqa
+                result.append("err " + core.err_kind(e))
+            finally:
+                parked.set()
+
+        core_.__dict__["_c01_hook"] = (None if op[4] == "early" else RULE_ATTRS, park)
+        core_.__class__ = hook_core_class(base)
+        th = threading.Thread(target=reader, name="c01-reader", daemon=True)
+        try:
+            th.start()
+            if not parked.wait(10):
+                raise HarnessTimeout("reader neither parked nor finished")
+            change(inside=False)                # the complete enable()/disable(), by THIS thread (already done if the
+            resume.set()                        # reader finished without parking - then it simply runs after the call)
+            th.join(10)
+            if th.is_alive() or not result or result[0] == "timeout":
+                raise HarnessTimeout("overlapped log call did not finish")
+        finally:
+            resume.set()
+            core_.__class__ = base
+            core_.__dict__.pop("_c01_hook", None)
+        return result[0]
 
     def _do(self, op):
         lg, t = self.lg, op[0]
@@ -418,6 +471,8 @@ class Impl:
                         lk.release()
                 fired.append(1)
                 (lg.enable if op[6] else lg.disable)(op[5])
+            if self.threads:
+                return self._overlap_with_threads(op, core_, base, change, fired)
             core_.__dict__["_c01_hook"] = (None if op[4] == "early" else RULE_ATTRS, change)
             core_.__class__ = hook_core_class(base)
             try:
@@ -482,6 +537,12 @@ class Impl:
 
 def run_impl(history):
     im = Impl()
+    return [im.do(op) for op in history]
+
+
+def run_impl_threads(history):
+    im = Impl()
+    im.threads = True
     return [im.do(op) for op in history]
 
 
@@ -815,7 +876,7 @@ def gen_history(rng):
             h.append(g_add(rng, focus, rng.chance(15)))
             nadds += 1
         elif r < 83:
-            h.append(["rm", rng.range(0, max(nadds, 1)) if rng.chance(85) else rng.choice([-1, 99])])
+            h.append(["rm", rng.range(0, max(nadds, 1)) if rng.chance(85) else rng.choice([-1, 99, True, False])])   # bools are ints
         elif r < 85:
             h.append(["rmall"])
         elif r < 91:
@@ -1096,6 +1157,25 @@ def _run(ctx):
     for i in range(0, len(ov), 20000):
         check_histories(ctx, drv, ov[i:i + 20000], "overlap")
     ctx.stat("overlap_histories", len(ov))
+
+    # ---- stream 4: the same interleavings with two REAL threads (reader parked at the yield point) - cross-checks
+    # the single-thread production of overlapped calls used everywhere else
+    nthr = ctx.n(60, 1500) * boost
+    th_hist = [h for h in (gen_history(rng) for _ in range(nthr * 3)) if any(op[0] == "logd" for op in h)][:nthr]
+    th_hist += ov[:: max(1, len(ov) // ctx.n(100, 1000))]
+    for h in th_hist:
+        got, exp = run_impl_threads(h), run_oracle(h)
+        ctx.case(("threads", line_of(h)), nontrivial=classify(h, exp))
+        ctx.stat("overlap_with_real_threads")
+        if got != exp:
+            i = first_diff(got, exp)
+            same = run_impl(h) == got
+            ctx.violation("overlapped call produced with two real threads: op %d %s -> implementation %r, property says %r"
+                          "%s" % (i, json.dumps(h[i]), got[i], exp[i],
+                                  "" if same else " (the single-thread production of the same interleaving gives %r)" % (run_impl(h)[i],)),
+                          {"stream": "threads", "history": h, "op_index": i, "expected": exp, "observed": got},
+                          kind="oracle")
+            break
     ctx.note("overlap: every history 'add(0)' + up to %d ops from {enable, disable, log} + a log overlapped (at the "
              "rules read / at the first core access) by enable/disable + a later log, over %r" % (plen, onames))
     ctx.note("exhaustive: every history 'add(0)' + up to %d ops from {enable, disable, log INFO lazy} x %r"
@@ -1116,7 +1196,7 @@ def replay(ctx, rep):
     if "history" not in r:
         print("nothing to replay: " + rep.get("what", ""))
         return 0
-    got = run_impl(h)
+    got = run_impl_threads(h) if r.get("stream") == "threads" else run_impl(h)
     exp = run_oracle(h)
     try:
         model = core.Driver(DRIVER).run([line_of(h)])[0].split("|")
